@@ -9,7 +9,7 @@ package ddsketch
 
 // ---------------------------------------------------------------- abstract state of a sketch
 // mapping (immutable), zero weight, positive-side content, negative-side content
-//@ pred KInv(s *DDSketch) := s != nil && mapping.MapOK(s.IndexMapping) && store.SInv(s.positiveValueStore) && store.SInv(s.negativeValueStore) && disjoint(s.positiveValueStore, s.negativeValueStore) && finite(s.zeroCount) && s.zeroCount >= 0.0
+//@ pred KInv(s *DDSketch) := s != nil && s.positiveValueStore != nil && s.negativeValueStore != nil && mapping.MapOK(s.IndexMapping) && store.SInv(s.positiveValueStore) && store.SInv(s.negativeValueStore) && disjoint(s.positiveValueStore, s.negativeValueStore) && finite(s.zeroCount) && s.zeroCount >= 0.0
 //@ fun KZero(s *DDSketch) real := real(s.zeroCount)
 //@ fun KPosTot(s *DDSketch) real := store.STot(s.positiveValueStore)
 //@ fun KNegTot(s *DDSketch) real := store.STot(s.negativeValueStore)
@@ -38,7 +38,7 @@ package ddsketch
 //@   serves C12
 //@   requires KInv(s)
 //@   ensures result == (KCount(s) == 0.0)
-//@   hint store.SViewNonneg(s.positiveValueStore), store.STotIsTot(s.positiveValueStore), TotNonneg(store.SViewArr(s.positiveValueStore)), store.SViewNonneg(s.negativeValueStore), store.STotIsTot(s.negativeValueStore), TotNonneg(store.SViewArr(s.negativeValueStore))
+//@   hint store.STotNonneg(s.positiveValueStore), store.STotNonneg(s.negativeValueStore)
 
 // Adding: invalid input is refused with the documented error and changes nothing; a trackable value goes to the
 // bin of its index on its side (or to the zero bucket when closer to zero than the smallest indexable value).
@@ -47,7 +47,7 @@ package ddsketch
 //@   requires KInv(s) && finite(count)
 //@   ensures untouched-neg: !(result == nil && value < xf(0.0 - mapping.MMin(s.IndexMapping))) ==> untouched(s.negativeValueStore)
 //@   ensures untouched-pos: !(result == nil && value > xf(mapping.MMin(s.IndexMapping))) ==> untouched(s.positiveValueStore)
-//@   ensures KInv(s)
+//@   ensures KInv(s) using store.SFrame(s.positiveValueStore), store.SFrame(s.negativeValueStore)
 //@   ensures neg-count: count < 0.0 ==> result == ErrNegativeCount && KSame(s)
 //@   ensures nan: count >= 0.0 && isnan(value) ==> result == ErrUntrackableNaN && KSame(s)
 //@   ensures too-high: count >= 0.0 && value > xf(mapping.MMax(s.IndexMapping)) ==> result == ErrUntrackableTooHigh && KSame(s)
@@ -69,3 +69,31 @@ package ddsketch
 //@   ensures accepted: !(isnan(value) || value > xf(mapping.MMax(s.IndexMapping)) || value < xf(0.0 - mapping.MMax(s.IndexMapping))) ==> result == nil && KCount(s) == old(KCount(s)) + 1.0
 //@   ensures stable: footprintStable(s)
 //@   modifies footprint(s)
+
+// ---------------------------------------------------------------- quantiles
+// the rank looked up for quantile q: q*(W-1), not below 0
+//@ fun KRank(s *DDSketch, q float64) real := max(real(q) * (KCount(s) - 1.0), 0.0)
+//@ lemma RankBound(q real, w real)
+//@   serves C01 C11
+//@   requires 0.0 <= q && q <= 1.0 && w > 0.0
+//@   ensures max(q * (w - 1.0), 0.0) < w && max(q * (w - 1.0), 0.0) >= 0.0 && (w >= 1.0 ==> max(q * (w - 1.0), 0.0) == q * (w - 1.0) && q * (w - 1.0) <= w - 1.0)
+
+// GetValueAtQuantile: q outside [0,1] (NaN included) or an empty sketch is refused. Otherwise, with
+// r = max(q*(W-1), 0) (W the total weight), the answer is the representative value of a bin of positive weight
+// whose cumulative-weight interval contains the rank, on the side (negative, zero, positive) the rank falls in:
+// negative side: the first index i (counting down from the most negative value) with
+//   SCum(neg,i-1) <= N-1-r < SCum(neg,i);  positive side: SCum(pos,i-1) <= r-Z-N < SCum(pos,i).
+//@ func DDSketch.GetValueAtQuantile
+//@   serves C01 C11 C13 C12
+//@   requires KInv(s)
+//@   ensures untouched-pos: (result1 != nil || old(KRank(s, quantile)) < old(KZero(s) + KNegTot(s))) ==> untouched(s.positiveValueStore)
+//@   ensures untouched-neg: (result1 != nil || old(KRank(s, quantile)) >= old(KNegTot(s))) ==> untouched(s.negativeValueStore)
+//@   ensures pure: KInv(s) && KSame(s) using store.SFrame(s.positiveValueStore), store.SFrame(s.negativeValueStore)
+//@   ensures reject: (!(quantile >= 0.0 && quantile <= 1.0) || old(KCount(s)) == 0.0) ==> result1 != nil
+//@   ensures accept: quantile >= 0.0 && quantile <= 1.0 && old(KCount(s)) > 0.0 ==> result1 == nil
+//@   ensures negative-side: result1 == nil && old(KRank(s, quantile)) < old(KNegTot(s)) ==> (exists i int :: same(result, xf(0.0 - mapping.MVal(s.IndexMapping, i))) && KNeg(s, i) > 0.0 && in32(i) && store.SCum(s.negativeValueStore, i) > max(old(KNegTot(s) - 1.0 - KRank(s, quantile)), 0.0) && store.SCum(s.negativeValueStore, i - 1) <= max(old(KNegTot(s) - 1.0 - KRank(s, quantile)), 0.0))
+//@   ensures zero-side: result1 == nil && old(KRank(s, quantile)) >= old(KNegTot(s)) && old(KRank(s, quantile)) < old(KZero(s) + KNegTot(s)) ==> same(result, xf(0.0))
+//@   ensures positive-side: result1 == nil && old(KRank(s, quantile)) >= old(KZero(s) + KNegTot(s)) ==> old(KPosTot(s)) > 0.0 && (exists i int :: same(result, xf(mapping.MVal(s.IndexMapping, i))) && KPos(s, i) > 0.0 && in32(i) && store.SCum(s.positiveValueStore, i) > old(KRank(s, quantile) - KZero(s) - KNegTot(s)) && store.SCum(s.positiveValueStore, i - 1) <= old(KRank(s, quantile) - KZero(s) - KNegTot(s)))
+//@   ensures stable: footprintStable(s)
+//@   modifies footprint(s)
+//@   hint RankBound(real(quantile), old(KCount(s))), store.STotNonneg(s.positiveValueStore), store.STotNonneg(s.negativeValueStore)
